@@ -444,6 +444,8 @@ def _handle_cex(h, res, prop, what, m, inputs, known, replay_dir, detail="", exc
         res.inconclusive.append("%s: replay crashed for %s: %s" % (h.name, what, e))
         return
     if not reproduced:
+        if os.environ.get("VF_VERBOSE"):
+            print("  non-reproduced cex %s/%s inputs=%s" % (h.name, what, _jsonable(cinp)), flush=True)
         res.inconclusive.append("%s: counterexample for %s did not reproduce on the real code (%s)" % (h.name, what, observed))
         return
     sig = _signature(h, what, exc)
